@@ -3016,6 +3016,29 @@ fn unify(ty_1: &Type, ty_2: &Type) -> Option<Type> {
     }
 }
 
+/// Verification hook: expose `unify`.
+#[cfg(wilfred_garden_verif)]
+pub(crate) fn verif_unify(ty_1: &Type, ty_2: &Type) -> Option<Type> {
+    unify(ty_1, ty_2)
+}
+
+/// Verification hook: expose `unify_all`.
+#[cfg(wilfred_garden_verif)]
+pub(crate) fn verif_unify_all(tys: &[Type]) -> Option<Type> {
+    let mut id_gen = crate::parser::ast::IdGenerator::default();
+    let _ = &mut id_gen;
+    let vfs_path = crate::parser::vfs::Vfs::singleton(
+        std::path::PathBuf::from("/verif.gdn"),
+        String::new(),
+    )
+    .1;
+    let tys: Vec<(Type, Position)> = tys
+        .iter()
+        .map(|t| (t.clone(), Position::todo(&vfs_path)))
+        .collect();
+    unify_all(&tys).ok()
+}
+
 fn check_match_exhaustive(
     env: &Env,
     scrutinee_pos: &Position,
